@@ -432,10 +432,19 @@ package main
 //@ ghost var ghostIsAdmin bool
 //@ ghost var ghostIsAutomationAdmin bool
 // what the admin sources (configured names, directory groups) say right now (uninterpreted)
-//@ ghost func adminDirectoryVerdict(state *RuntimeState, user string) bool
+// "an administrator by configured name or group": listed in AdminUsers, or (when admin groups are configured) a member,
+// according to the directory, of one of them
+//@ pure func inStrings(l []string, x string) bool = (exists j int :: 0 <= j && j < len(l) && l[j] == x)
+//@ opaque func adminDirectoryVerdict(state *RuntimeState, user string) bool = inStrings(state.Config.Base.AdminUsers, user) || (exists g int :: 0 <= g && g < len(state.Config.Base.AdminGroups) && inStrings(directoryGroups(state, user), state.Config.Base.AdminGroups[g]))
 
 //@ func (*RuntimeState)._IsAdminUser
-//@   assume ret1 == nil ==> ret0 == adminDirectoryVerdict(state, user)
+//@   reveal adminDirectoryVerdict
+//@   ensures ret1 == nil && ret0 ==> adminDirectoryVerdict(state, user)                                    #C08.admin-means-configured-name-or-group @C08
+//@   ensures ret1 == nil && !ret0 ==> !adminDirectoryVerdict(state, user)                                  #C08.configured-admins-are-recognised @C08
+//@   loop 1 (rangeindex int) invariant (forall j int :: 0 <= j && j <= rangeindex ==> state.Config.Base.AdminUsers[j] != user)   #C08.admin-name-scan @C08
+//@   loop 2 (rangeindex int, groups []string, userGroupSet map[string]struct{}) invariant same(groups, directoryGroups(state, user)) && !inStrings(state.Config.Base.AdminUsers, user) && (forall k string :: hasKey(userGroupSet, k) <==> (exists j int :: 0 <= j && j <= rangeindex && groups[j] == k))   #C08.group-set-built @C08
+//@   loop 3 (rangeindex int, groups []string, userGroupSet map[string]struct{}) invariant same(groups, directoryGroups(state, user)) && !inStrings(state.Config.Base.AdminUsers, user) && (forall k string :: hasKey(userGroupSet, k) <==> inStrings(groups, k)) && (forall g int :: 0 <= g && g <= rangeindex ==> !hasKey(userGroupSet, state.Config.Base.AdminGroups[g]))   #C08.admin-group-scan @C08
+//@   modifies nothing
 //@ func (*RuntimeState).IsAdminUser
 //@   ghostset ghostIsAdmin bool = ret0 if user == ghostAuthUser
 //@   atcall admincache.Cache).Get sets ghostCacheValid bool (c *admincache.Cache, user2 string, isAdmin bool, valid bool) :: valid
